@@ -47,6 +47,8 @@ pub enum BaseStream {
     },
     #[cfg(test)]
     Mock(Cursor<Vec<u8>>),
+    #[cfg(feature = "verif-hooks")]
+    Scripted(Box<dyn crate::verif::Transport>),
 }
 
 impl BaseStream {
@@ -59,6 +61,8 @@ impl BaseStream {
         debug!("trying to connect to {}:{}", host, port);
 
         let stream = match connect_url.scheme() {
+            #[cfg(feature = "verif-hooks")]
+            "http" if crate::verif::factory_installed() => crate::verif::dial(&host, port, info),
             "http" => BaseStream::connect_tcp(&host, port, info)
                 .map(|(stream, timeout)| BaseStream::Plain { stream, timeout }),
             "https" => BaseStream::connect_tls(&host, port, info),
@@ -141,17 +145,28 @@ impl BaseStream {
                 let socket = stream.as_raw_socket();
 
                 let (tx, rx) = mpsc::channel();
+                #[cfg(feature = "verif-hooks")]
+                let verif_ctx = crate::verif::inherit();
                 thread::spawn(move || {
+                    #[cfg(feature = "verif-hooks")]
+                    let _verif_guard = verif_ctx.enter("wd");
                     let shutdown = match deadline.checked_duration_since(Instant::now()) {
                         Some(timeout) => rx.recv_timeout(timeout) == Err(mpsc::RecvTimeoutError::Timeout),
                         None => rx.try_recv() == Err(mpsc::TryRecvError::Empty),
                     };
 
+                    #[cfg(feature = "verif-hooks")]
+                    crate::verif::sched_point("wd.wait.end", shutdown as i64);
+
                     if shutdown {
                         drop(rx);
+                        #[cfg(feature = "verif-hooks")]
+                        crate::verif::sched_point("wd.rx_dropped", 0);
 
                         #[cfg(not(windows))]
                         let _ = stream.shutdown(Shutdown::Both);
+                        #[cfg(feature = "verif-hooks")]
+                        crate::verif::sched_point("wd.shutdown.done", 0);
 
                         #[cfg(windows)]
                         extern "system" {
@@ -193,6 +208,8 @@ impl Read for BaseStream {
             BaseStream::Tunnel { stream } => stream.read(buf),
             #[cfg(test)]
             BaseStream::Mock(s) => s.read(buf),
+            #[cfg(feature = "verif-hooks")]
+            BaseStream::Scripted(s) => s.read(buf),
         }
     }
 }
@@ -204,6 +221,8 @@ impl Write for BaseStream {
             BaseStream::Plain { stream, .. } => stream.write(buf),
             BaseStream::Tls { stream, .. } => stream.write(buf),
             BaseStream::Tunnel { stream } => stream.write(buf),
+            #[cfg(feature = "verif-hooks")]
+            BaseStream::Scripted(s) => s.write(buf),
             #[cfg(test)]
             _ => Ok(0),
         }
@@ -215,6 +234,8 @@ impl Write for BaseStream {
             BaseStream::Plain { stream, .. } => stream.flush(),
             BaseStream::Tls { stream, .. } => stream.flush(),
             BaseStream::Tunnel { stream } => stream.flush(),
+            #[cfg(feature = "verif-hooks")]
+            BaseStream::Scripted(s) => s.flush(),
             #[cfg(test)]
             _ => Ok(()),
         }
@@ -222,12 +243,18 @@ impl Write for BaseStream {
 }
 
 fn read_timeout(stream: &mut impl Read, buf: &mut [u8], timeout: &mut Option<mpsc::Sender<()>>) -> io::Result<usize> {
+    #[cfg(feature = "verif-hooks")]
+    crate::verif::sched_point("rd.read.begin", buf.len() as i64);
     match stream.read(buf) {
         Ok(0) => {
+            #[cfg(feature = "verif-hooks")]
+            crate::verif::sched_point("rd.zero", 0);
             #[cfg(unix)]
             if let Some(timeout) = timeout {
                 // On Unix we get a 0 read when the connection is shutdown by the timeout thread.
                 if !buf.is_empty() && timeout.send(()).is_err() {
+                    #[cfg(feature = "verif-hooks")]
+                    crate::verif::sched_point("rd.timedout", 0);
                     return Err(io::ErrorKind::TimedOut.into());
                 }
             }
